@@ -12,7 +12,7 @@ CORE_WRAPS = ['syscall', 'epoll_create', 'epoll_ctl', 'epoll_wait', 'epoll_pwait
               'gettimeofday', 'pthread_create', 'pthread_join', 'pthread_detach', 'pthread_mutex_lock',
               'pthread_mutex_unlock', 'pthread_spin_lock', 'pthread_spin_unlock', 'abort',
               'sigaction', 'signal', 'pthread_sigmask', 'sigprocmask', 'fork', 'wait4', 'kill', 'getpid',
-              'pthread_atfork', 'pthread_spin_init', 'pthread_mutex_init', 'malloc', 'calloc', 'free', 'strdup']
+              'pthread_atfork', 'pthread_spin_init', 'pthread_mutex_init', 'malloc', 'calloc', 'free', 'strdup', 'pthread_once']
 
 
 def build_core(kind="plain"):
